@@ -419,48 +419,46 @@ def r13_5(cx):
     yes_idx = [i for i, v in enumerate(f.adts['util::search::Anchored']['variants']) if v['name'] == 'Yes'][0]
     for imp in ('nfa::noncontiguous::NFA', 'nfa::contiguous::NFA', 'dfa::DFA'):
         b = cx.body('<%s as automaton::Automaton>::start_state' % imp)
-        tb = decision_table(b)
-        if tb is None:
-            cx.bad('R13.5', b, 'table', 'start_state is not loop-free')
-            continue
+        # evaluated on the path summaries: for each mode, with the selected start id equal to DEAD (0) and to a live id (5)
+        from acverif.sym import summarize, canon, cstr, teval, row_consistent
+        from acverif.rl import param_at as _pa, Unsupported as _U, EvalPanic as _E
+        rows = [r for r in summarize(cx.facts, b) if r.end == 'return']
+        AN = cstr(_pa(b, 2))
         for mode in ('No', 'Yes'):
             fld = 'start_anchored_id' if mode == 'Yes' else 'start_unanchored_id'
             errname = 'invalid_input_anchored' if mode == 'Yes' else 'invalid_input_unanchored'
-            rows = []
-            for conds, out, path in tb:
-                dv = [v for c, v in conds if c[0] == 'discr' and is_var(peel(c[1]), 'anchored')]
-                if len(dv) != 1:
-                    rows.append(('?', out, conds))
-                    continue
-                m = 'Yes' if dv[0] == yes_idx else 'No'
-                if m == mode:
-                    rows.append((m, out, conds))
-            ok = bool(rows)
             why = []
-            for m, out, conds in rows:
-                others = [(c, v) for c, v in conds if not (c[0] == 'discr' and is_var(peel(c[1]), 'anchored'))]
-                ok_field = lambda t: self_field(b.local_term(t[2], expand=True) if is_var(t) and not t[1] == 'self' else t, 'special', fld)
-                k = outcome_kind(out)
-                if imp != 'dfa::DFA':
-                    good = k == 'Ok' and not others and ok_field(out[3]['0'])
-                else:
-                    # exactly one equality test start == DEAD decides Ok / Err
-                    good = False
-                    if len(others) == 1:
-                        e = eq_cond(others[0][0])
-                        if e:
-                            a, c2, pos = e
-                            sides = [peel(a), peel(c2)]
-                            isdead = [x for x in sides if is_named_const(x, r'dfa::DFA::DEAD$') and x[2] == 0]
-                            isstart = [x for x in sides if ok_field(x)]
-                            if len(isdead) == 1 and len(isstart) == 1:
-                                equal = (others[0][1] == pos)
-                                good = (k == errname) if equal else (k == 'Ok' and ok_field(out[3]['0']))
-                if not good:
-                    ok = False
-                    why.append('path %s -> %s' % ([(tstr(c, 80), v) for c, v in conds], tstr(out, 120)))
+            for v in ((5,) if imp != 'dfa::DFA' else (0, 5)):
+                def at(t, v=v, mode=mode, fld=fld):
+                    s0 = cstr(t)
+                    if s0 == 'discr(%s)' % AN:
+                        return yes_idx if mode == 'Yes' else 1 - yes_idx
+                    if s0 in ('self.special.%s' % fld, 'self.special.%s.0' % fld, 'self.special.%s.0.0' % fld):
+                        return v
+                    if re.match(r'^self\.special\.start_(un)?anchored_id(\.0)*$', s0):
+                        return 9          # the other start id: must not matter
+                    if s0 == 'util::search::Anchored::is_anchored(%s)' % AN:
+                        return 1 if mode == 'Yes' else 0
+                    return None
+                try:
+                    sel = [r for r in rows if row_consistent(r, at)]
+                    if len(sel) != 1:
+                        why.append('%d paths for Anchored::%s' % (len(sel), mode))
+                        continue
+                    ret = canon(sel[0].ret)
+                    if imp == 'dfa::DFA' and v == 0:
+                        good = is_agg(ret, r'Result$', 'Err') and errname in cstr(ret)
+                    else:
+                        good = is_agg(ret, r'Result$', 'Ok') and teval(ret[3]['0'], at) == v
+                    if imp != 'dfa::DFA' and [c for c, vv in sel[0].conds if cstr(canon(c)) not in ('discr(%s)' % AN, 'util::search::Anchored::is_anchored(%s)' % AN)]:
+                        good = False
+                    if not good:
+                        why.append('Anchored::%s with special.%s = %s gives %s' % (mode, fld, 'DEAD' if v == 0 else 'a live id', tstr(ret, 120)))
+                except (_U, _E, KeyError, TypeError) as e:
+                    why.append('cannot evaluate: %s' % e)
+            ok = not why
             cx.report('R13.5', b, 'mode:' + mode, ok,
-                      ('Anchored::%s -> %s' % (mode, 'Ok(special.%s), no error path' % fld if imp != 'dfa::DFA' else 'Err(%s) iff special.%s == DEAD else Ok(it)' % (errname, fld))) if ok else '; '.join(why) or 'no path for this mode')
+                      ('Anchored::%s -> %s' % (mode, 'Ok(special.%s), no error path' % fld if imp != 'dfa::DFA' else 'Err(%s) iff special.%s == DEAD else Ok(it)' % (errname, fld))) if ok else '; '.join(why))
     # DFA builder: unsupported start id is DEAD; dispatch on start kind
     from rules.dfabuild import r13_5_one_start
     r13_5_one_start(cx)
